@@ -92,6 +92,12 @@ class ByteKind:
             lid, var = t[1], t[2]
             info = se.loop_info.get(lid, {})
             pre, be = info.get("pre", {}).get(var), (info.get("body_end") or {}).get(var)
+            tst = info.get("test")
+            if k == "loopout" and tst is not None and is_const(tst) and tst[1]:
+                # a `while True` loop is left at its breaks: the variable holds what it held there
+                brk = [st_.env.get(var) for k_, st_ in info.get("ends", []) if k_ == "break"]
+                if brk and all(x is not None and x != ("loop", lid, var) for x in brk):
+                    return join(*[self.kind(f, se, x, env) for x in brk])
             if pre is None:
                 return "unknown"
             k0 = self.kind(f, se, pre, env)
